@@ -125,6 +125,16 @@ def r3_binding(ctx):
         else:
             ctx.undecided("C10.R3", loc(fi), f"model task is not invoked: exits {[p.exit[0] for p in paths]}")
         return
+    # upstream values are arbitrary objects (None, 0, empty containers included): whether the task runs must not depend on them
+    for p in paths:
+        dep = [d for d in p.decisions if "Memory.provide(" in d.key]
+        if p.exit[0] == "raise" and dep:
+            ctx.violation("C10.R3", fi.qual, loc(fi), "any upstream value is passed on",
+                          f"the run raises {vkey(p.exit[1])[:100]} depending on the upstream value itself ({dep[0].key[:90]} = {dep[0].value}): a task that "
+                          f"legitimately produced that value (None, 0, an empty container) makes its consumer fail, where sequential evaluation just passes it on")
+            break
+    else:
+        ctx.ok("C10.R3", loc(fi), "no exit of run depends on the upstream values themselves")
     for args, kwargs in calls[:1]:
         a = [vkey(x) for x in args]
         k = {n: vkey(v) for n, v in kwargs.items()}
